@@ -80,22 +80,22 @@ type Violation struct {
 }
 
 type CheckResult struct {
-	Property    string
-	Units       []*UnitResult
-	Violations  []*Violation
-	KnownHit    []string
-	Records     []oblRecord
-	Obligations int
-	Discharged  int
-	Covers      int
+	Property        string
+	Units           []*UnitResult
+	Violations      []*Violation
+	KnownHit        []string
+	Records         []oblRecord
+	Obligations     int
+	Discharged      int
+	Covers          int
 	CoversUndecided int
-	Trusted     map[string]bool
-	Abstracted  map[string]int
-	Functions   []string
-	SolverMs    int64
-	LoadMs      int64
-	WallS       float64
-	Errors      []string
+	Trusted         map[string]bool
+	Abstracted      map[string]int
+	Functions       []string
+	SolverMs        int64
+	LoadMs          int64
+	WallS           float64
+	Errors          []string
 }
 
 // RunProperty verifies every unit tagged with the property.
